@@ -163,6 +163,7 @@ func (qe *queryEvent) passOn(m *nats.Msg) {
 	qe.r.s.runWith(qe.r.Group(), func() {
 		qe.handleQueryRequest(m)
 	})
+	verifPoint("qlistener.msgDone", m)
 }
 
 // handleQueryRequest is called by the query listener on incoming query requests.
